@@ -554,7 +554,19 @@ def _run_verus_once(gen_path: str, linemap: dict, meta: dict, unit: str, rlimit:
             else:
                 undecided.append(dict(obligation=f"{unit}::{fn}::lemma", kind="lemma", fn=fn, line=line, msg=msg, rendered=rendered))
         else:
-            if origin in code_origins:
+            # `assert forall|post| callee_post(..) implies fn_post(..)` marked tail-post is how the postcondition of a
+            # function that ends in a tail call is stated (Verus checks a tail call's result against the ensures
+            # only through such a quantified step): its failure is the failure of that postcondition
+            tail_post = False
+            if kind == "assert" and origin not in code_origins:
+                try:
+                    gl = _gen_lines(gen_path)
+                    tail_post = any("tail-post" in gl[k] for k in range(max(0, line - 4), min(len(gl), line)))
+                except Exception:
+                    tail_post = False
+            if tail_post:
+                violations.append(dict(obligation=f"{unit}::{fn}::post", kind="post", fn=fn, line=line, msg=msg + " (postcondition at a tail call)", rendered=rendered))
+            elif origin in code_origins:
                 violations.append(dict(obligation=f"{unit}::{fn}::{kind}", kind=kind, fn=fn, line=line, msg=msg, rendered=rendered))
             elif fn in meta["contract_lemmas"]:
                 violations.append(dict(obligation=f"{unit}::{fn}::{kind}", kind=kind, fn=fn, line=line, msg=msg, rendered=rendered))
@@ -577,6 +589,18 @@ def _run_verus_once(gen_path: str, linemap: dict, meta: dict, unit: str, rlimit:
     return dict(unit=unit, status=status, reason=reason, wall_s=wall, cmd=" ".join(cmd), functions=funcs, violations=violations,
                 undecided=undecided, tool=tool, verified=verified, errors=errors,
                 smt_ms=js.get("times-ms", {}).get("smt", {}).get("smt-run"), total_ms=js.get("times-ms", {}).get("total"))
+
+
+_GEN_CACHE = {}
+
+
+def _gen_lines(gen_path: str):
+    st = os.stat(gen_path)
+    key = (gen_path, st.st_mtime_ns, st.st_size)
+    if key not in _GEN_CACHE:
+        _GEN_CACHE.clear()
+        _GEN_CACHE[key] = open(gen_path).read().split("\n")
+    return _GEN_CACHE[key]
 
 
 def scan_assumptions(gen_path: str):
